@@ -23,7 +23,7 @@ PopTx(proto, c, t, b, d) ==
               fd == SubSeq(d, 1, n)
               u  == Unframe(proto, fb)
               ev == [e |-> "txframe", t |-> t, c |-> c, ok |-> u.ok,
-                     rd |-> IF u.ok THEN ReadMsg(proto, u.type, u.payload) ELSE <<>>,
+                     alts |-> IF u.ok THEN LET m == ReadMsg(proto, u.type, u.payload) IN <<m, Gate(m)>> ELSE <<>>,
                      failed |-> \E i \in 1..n : fd[i] = 1, nw |-> Count(fd, 0),
                      to |-> u.to, from |-> u.from, pid |-> u.pid, type |-> u.type]
               r  == PopTx(proto, c, t, SubSeq(b, n + 1, Len(b)), SubSeq(d, n + 1, Len(d)))
